@@ -150,5 +150,5 @@ GLOBAL_TRUSTED = [
     'Verus 0.2026.09.13 + bundled Z3; vstd specifications of Vec/Option/Result/HashMap/BTreeSet',
     'Kani 0.68.0 + CBMC 6.11 + CaDiCaL; rustc front ends of both tools',
     'machine integers: overflow is a failed obligation (debug-profile semantics of the test suite)',
-    'extraction: items are cut verbatim from /repo each run; normalisations N0-N8 are listed with counts',
+    'extraction: items are cut verbatim from /repo each run; normalisations N0-N10 are listed with counts',
 ]
